@@ -29,6 +29,7 @@ try:
         meta["with_failing_input"] = (rc == 1 and "no-failing-input-found" not in o)
 finally:
     sh("git -C /repo checkout -- .")
-sh(f"./check {prop} quick", ROOT)
+if os.environ.get("SEEDCHECK_NO_RESTORE") != "1":
+    sh(f"./check {prop} quick", ROOT)
 json.dump(meta, open(os.path.join(dst, "meta.json"), "w"), indent=1)
 print(sid, prop, meta[key]["rc"], [l for l in meta[key]["lines"] if "VIOLATION" in l or tier + ":" in l])
